@@ -464,10 +464,10 @@ theorem froot_row {F : Forest H} : ∀ q q', FRoot F q → FRoot F q' → q.1 = 
   rw [(eq_rootPos_of_isRootPos h1).2, (eq_rootPos_of_isRootPos h2).2, e]
 
 /-- the sorted canonical targets satisfy the invariant (nothing scanned yet) -/
-theorem zinv_start (cr : CR H) (F : Forest H) (hn : F.numLeaves < 2 ^ 64) (hy : Hyg F)
+theorem zinv_start (nz : NZ H) (F : Forest H) (hn : F.numLeaves < 2 ^ 64) (hy : Hyg F)
     {L : List H} {ts : List Pos} {ps : List H} (hnd : L.Nodup) (hc : F.canon L = some (ts, ps)) :
     ZInv F.nodes L [] (sortPos ts) := by
-  have Lw := laws_forest cr F hn hy
+  have Lw := laws_forest nz F hn hy
   obtain ⟨hts, hpos, _, _⟩ := SpecPlan.canon_spec hc
   have hmem : ∀ d, d ∈ [] ++ sortPos ts ↔ ∃ l ∈ L, F.posOf l = some d := by
     intro d
@@ -530,7 +530,7 @@ theorem sorted_translated {F : Forest H} {ts : List Pos} (hts : ∀ p ∈ ts, Is
 
 /-- the full result of the scan: besides `DT`, the list is strictly sorted row-major, an antichain,
 contains no pair of siblings, and consists of positions of the allocation `T` -/
-theorem deTwin_spec_strong (cr : CR H) (F : Forest H) (hn : F.numLeaves < 2 ^ 63) (hy : Hyg F)
+theorem deTwin_spec_strong (nz : NZ H) (F : Forest H) (hn : F.numLeaves < 2 ^ 63) (hy : Hyg F)
     {L : List H} {ts : List Pos} {ps : List H} (hnd : L.Nodup) (hc : F.canon L = some (ts, ps))
     {T : Nat} (hT : T ≤ 63) (hrows : F.rows ≤ T) :
     ∃ ds : List Pos, DT F L ds ∧ SSorted ds ∧ (∀ a ∈ ds, ∀ b ∈ ds, Anc a b → a = b) ∧
@@ -539,8 +539,8 @@ theorem deTwin_spec_strong (cr : CR H) (F : Forest H) (hn : F.numLeaves < 2 ^ 63
           then translatePositions (sortU64 (ts.map (encP F.rows))) (H8 F.rows) (H8 T)
           else sortU64 (ts.map (encP F.rows))) (H8 T) = ds.map (encP T) := by
   have hn64 : F.numLeaves < 2 ^ 64 := Nat.lt_trans hn (by decide)
-  have Lw := laws_forest cr F hn64 hy
-  have I0 := zinv_start cr F hn64 hy hnd hc
+  have Lw := laws_forest nz F hn64 hy
+  have I0 := zinv_start nz F hn64 hy hnd hc
   have hts : ∀ p ∈ ts, IsNode F.nodes p := fun p hp =>
     I0.node p (by rw [List.nil_append]; exact mem_sortPos.2 hp)
   rw [sorted_translated hts hT hrows]
@@ -551,7 +551,7 @@ theorem deTwin_spec_strong (cr : CR H) (F : Forest H) (hn : F.numLeaves < 2 ^ 63
     I'.sorted, I'.anti, I'.final hlen, fun d hd => node_valid hrows (I'.node d hd), heq⟩
 
 /-- `deTwin_spec_strong`, and every detwinned target has a leaf below it -/
-theorem deTwin_spec_live (cr : CR H) (F : Forest H) (hn : F.numLeaves < 2 ^ 63) (hy : Hyg F)
+theorem deTwin_spec_live (nz : NZ H) (F : Forest H) (hn : F.numLeaves < 2 ^ 63) (hy : Hyg F)
     {L : List H} {ts : List Pos} {ps : List H} (hnd : L.Nodup) (hc : F.canon L = some (ts, ps))
     {T : Nat} (hT : T ≤ 63) (hrows : F.rows ≤ T) :
     ∃ ds : List Pos, DT F L ds ∧ (∀ d ∈ ds, ∃ t x, (t, x, true) ∈ F.nodes ∧ Anc d t) ∧
@@ -560,8 +560,8 @@ theorem deTwin_spec_live (cr : CR H) (F : Forest H) (hn : F.numLeaves < 2 ^ 63) 
           then translatePositions (sortU64 (ts.map (encP F.rows))) (H8 F.rows) (H8 T)
           else sortU64 (ts.map (encP F.rows))) (H8 T) = ds.map (encP T) := by
   have hn64 : F.numLeaves < 2 ^ 64 := Nat.lt_trans hn (by decide)
-  have Lw := laws_forest cr F hn64 hy
-  have I0 := zinv_start cr F hn64 hy hnd hc
+  have Lw := laws_forest nz F hn64 hy
+  have I0 := zinv_start nz F hn64 hy hnd hc
   have hts : ∀ p ∈ ts, IsNode F.nodes p := fun p hp =>
     I0.node p (by rw [List.nil_append]; exact mem_sortPos.2 hp)
   rw [sorted_translated hts hT hrows]
@@ -573,14 +573,14 @@ theorem deTwin_spec_live (cr : CR H) (F : Forest H) (hn : F.numLeaves < 2 ^ 63) 
 
 /-- **what `remove` hands to `removeSingle`**: sorting the canonical targets, translating them to
 the allocation `T` and detwinning gives the encodings of a list `ds` with `DT F L ds` -/
-theorem deTwin_spec (cr : CR H) (F : Forest H) (hn : F.numLeaves < 2 ^ 63) (hy : Hyg F)
+theorem deTwin_spec (nz : NZ H) (F : Forest H) (hn : F.numLeaves < 2 ^ 63) (hy : Hyg F)
     {L : List H} {ts : List Pos} {ps : List H} (hnd : L.Nodup) (hc : F.canon L = some (ts, ps))
     {T : Nat} (hT : T ≤ 63) (hrows : F.rows ≤ T) :
     ∃ ds : List Pos, DT F L ds ∧
       deTwin (if H8 T ≠ H8 F.rows
           then translatePositions (sortU64 (ts.map (encP F.rows))) (H8 F.rows) (H8 T)
           else sortU64 (ts.map (encP F.rows))) (H8 T) = ds.map (encP T) := by
-  obtain ⟨ds, h1, _, _, _, _, h2⟩ := deTwin_spec_strong cr F hn hy hnd hc hT hrows
+  obtain ⟨ds, h1, _, _, _, _, h2⟩ := deTwin_spec_strong nz F hn hy hnd hc hT hrows
   exact ⟨ds, h1, h2⟩
 
 /-! ### non-vacuity -/
@@ -597,7 +597,7 @@ example : ∃ ts ps ds, F5.canon [T.leaf 3, T.leaf 0, T.leaf 4, T.leaf 2, T.leaf
         else sortU64 (ts.map (encP F5.rows))) (H8 63) = ds.map (encP 63) := by
   have hc : F5.canon [T.leaf 3, T.leaf 0, T.leaf 4, T.leaf 2, T.leaf 1] =
       some ([(0, 3), (0, 0), (0, 4), (0, 2), (0, 1)], []) := by decide +kernel
-  obtain ⟨ds, h1, h2⟩ := deTwin_spec crT F5 (by decide) F5_hyg (by decide) hc (T := 63) (by decide)
+  obtain ⟨ds, h1, h2⟩ := deTwin_spec crT.toNZ F5 (by decide) F5_hyg (by decide) hc (T := 63) (by decide)
     (by decide)
   exact ⟨_, _, ds, hc, h1, h2⟩
 
@@ -616,7 +616,7 @@ example : ∃ ts ps ds, F5.canon [T.leaf 3, T.leaf 1, T.leaf 2] = some (ts, ps) 
     deTwin (sortU64 (ts.map (encP F5.rows))) (H8 F5.rows) = [(0, 1), (1, 1)].map (encP 3) := by
   have hc : F5.canon [T.leaf 3, T.leaf 1, T.leaf 2] = some ([(0, 3), (0, 1), (0, 2)], [T.leaf 0]) := by
     decide +kernel
-  obtain ⟨ds, h1, h2⟩ := deTwin_spec crT F5 (by decide) F5_hyg (by decide) hc (T := F5.rows) (by decide)
+  obtain ⟨ds, h1, h2⟩ := deTwin_spec crT.toNZ F5 (by decide) F5_hyg (by decide) hc (T := F5.rows) (by decide)
     (Nat.le_refl _)
   rw [if_neg (fun h => h rfl)] at h2
   exact ⟨_, _, ds, hc, h1, h2, by decide +kernel⟩
